@@ -104,6 +104,7 @@ func (e *Engine) RunRoot(fn *ssa.Function) (err error) {
 	if fr.contract != nil {
 		e.checkIfaceCallsOnly(s, fn, fr.contract)
 		e.checkDirectCallsOnly(s, fn, fr.contract)
+		e.checkNeverCalls(s, fn, fr.contract)
 		if fr.contract.Flags["frame_only"] != "" && fr.contract.Flags["never_writes"] == "" {
 			return nil
 		}
